@@ -503,12 +503,12 @@ func (s *Lexer) getNextToken() (*Token, error) {
 			current_state = SSTRING_DOUBLE
 		} else if current_state == SSTRING_D_ESCAPE {
 			if ch == 'x' {
-				next_ch := s.read()
-				next_next_ch := s.read()
-				if IsHex(next_ch) && IsHex(next_next_ch) {
+				hex, err := s.r.Peek(2)
+				if err == nil && IsHex(rune(hex[0])) && IsHex(rune(hex[1])) {
+					next_ch := s.read()
+					next_next_ch := s.read()
 					buf.WriteRune(HexToAscii(next_ch, next_next_ch))
 				} else {
-					s.unread(2)
 					buf.WriteRune('x')
 				}
 			} else {
@@ -519,12 +519,12 @@ func (s *Lexer) getNextToken() (*Token, error) {
 			current_state = SSTRING_SINGLE
 		} else if current_state == SSTRING_S_ESCAPE {
 			if ch == 'x' {
-				next_ch := s.read()
-				next_next_ch := s.read()
-				if IsHex(next_ch) && IsHex(next_next_ch) {
+				hex, err := s.r.Peek(2)
+				if err == nil && IsHex(rune(hex[0])) && IsHex(rune(hex[1])) {
+					next_ch := s.read()
+					next_next_ch := s.read()
 					buf.WriteRune(HexToAscii(next_ch, next_next_ch))
 				} else {
-					s.unread(2)
 					buf.WriteRune('x')
 				}
 			} else {
